@@ -90,9 +90,9 @@ def solver_level(ctx):
     trig = full[0] if full else "exact"
     mech = dict(oc.REPAIRED, MTrigger=trig)
     ctx.cov["mechanism_identified_by_trace_validation"] = {"MTrigger": trig if full else None}
-    sb = dict(oc.STEP_DEFAULT, Vs=["zero", "none"]) if ctx.quick else dict(oc.STEP_DEFAULT, Vs=["zero", "none"], MaxSteps=5, MaxIter=2, AMax=4, IMax=4)
+    sb = dict(oc.STEP_DEFAULT, Vs=["zero", "none"], Seeds=["configured"]) if ctx.quick else dict(oc.STEP_DEFAULT, Vs=["zero", "none"], Seeds=["configured"], MaxSteps=5, MaxIter=2, AMax=4, IMax=4)
     ctx.cov["bounds"]["OpsCache/SpecStep"] = sb
-    small = dict(oc.STEP_DEFAULT, Vs=["zero"], Modes=["terminals"], MaxSteps=2)
+    small = dict(oc.STEP_DEFAULT, Vs=["zero"], Seeds=["configured"], Modes=["terminals"], MaxSteps=2)
     out = {}
 
     def judge():
